@@ -122,6 +122,8 @@ def run(tier, seed):
         cases += catalogue(F2, seed, tier, [0, 3], ["needed", "intact"])
         cases += subst_cases(F1, seed) + subst_cases(F2, seed) + subset_cases(F1) + subset_cases(F2)
     res = common.pmap(lib_imm.explore_chunk, cases, (seed, 0, 0, None, "C02"))
+    # several answers per reactor turn (grid.Sched.batch): every third damage case again
+    res.merge(common.pmap(lib_imm.explore_chunk, [dict(c, batch=True) for c in cases[::3]], (seed, 0, 0, None, "C02")))
     n0 = res.counts.get("executions", 0)
     # lying servers: every placement of <= f lies over all read calls of a full download
     f_lie = 1 if tier == "quick" else 2
@@ -134,7 +136,7 @@ def run(tier, seed):
     cov = {
         "evaluations": execs,
         "distinct_nontrivial": n0,
-        "rule": "one execution per damage case (every byte flip, every truncation length, header/offset edge values, zeroed regions, substitutions, damaged subsets) = %d distinct damaged layouts, plus %d executions placing <= %d altered answers over every read call of 3 download scenarios; non-trivial = each case damages at least one share the download touches" % (n0, execs - n0, f_lie),
+        "rule": "one execution per damage case (every byte flip, every truncation length, header/offset edge values, zeroed regions, substitutions, damaged subsets) = %d executions (every third layout a second time with several answers delivered per reactor turn), plus %d executions placing <= %d altered answers over every read call of 3 download scenarios; non-trivial = each case damages at least one share the download touches" % (n0, execs - n0, f_lie),
         "exhaustive": True,
         "outcomes": {k[8:]: v for k, v in res.counts.items() if k.startswith("outcome:")},
         "lie_bound_completed": f_lie,
